@@ -116,6 +116,9 @@ func PushCheck(sc sim.Scenario, h *sim.History) []Problem {
 			if e.Step < len(sc.Steps) {
 				c.deadline = max(sc.Steps[e.Step].D, 0)
 				c.bad = sc.Steps[e.Step].Out == "badparams"
+				if sc.Steps[e.Step].D == -2 {
+					c.ctxEndSeq = e.Seq // issued with a context that had already ended
+				}
 			}
 		case "enter":
 			if e.Method == "cbgate" || e.Method == "notegate" {
@@ -311,7 +314,8 @@ func PushCheck(sc sim.Scenario, h *sim.History) []Problem {
 			continue
 		}
 		// transmitted exactly once
-		if len(c.reqs) != 1 && !afterEnd && !(stopSeq >= 0 && len(c.reqs) == 0) {
+		// (a push that was still under way when the connection ended may have sent nothing)
+		if len(c.reqs) != 1 && !afterEnd && !(stopSeq >= 0 && stopSeq < ret.Seq && len(c.reqs) == 0) {
 			add("C09/push-transmission-count", "%s: %d requests on the wire, want exactly 1", name, len(c.reqs))
 			continue
 		}
@@ -319,7 +323,7 @@ func PushCheck(sc sim.Scenario, h *sim.History) []Problem {
 			if len(c.reqs) == 1 && c.reqs[0].id != "" {
 				add("C09/notification-with-id", "%s was transmitted with id %s", name, c.reqs[0].id)
 			}
-			if flag != "" && stopSeq < 0 {
+			if flag != "" && (stopSeq < 0 || ret.Seq < stopSeq) {
 				add("C09/notify-failed", "%s failed with %q (%s) while the connection was up", name, flag, ret.Err)
 			}
 			continue
